@@ -39,6 +39,7 @@ struct OpWindow {
 struct SaKnobs {
   int backend = BE_DIRECT;
   int realloc_mode = 0;     // 0 natural / always move for arena+direct(move), 1 in place when it fits
+  int fill = 0xAA;          // what fresh memory contains (any content is legal for an allocator): 0xAA, 0x00, 0xFF
   uint64_t max_request = (uint64_t)64 << 20;  // a single request above this is refused (kind "toolarge")
 };
 
